@@ -1,21 +1,29 @@
 /-
 Model of the scheduling part of cloudsync/sync/state.py (property C17).
 
-* `change`        — `SyncState.change(age)`            state.py:1174-1205
-* `markChanged`   — `SyncState.mark_changed`           state.py:1028-1038
-* `setPriority`   — `SyncEntry.__setattr__` (state.py:355-362) + the `priority` branch of
-                    `SyncState.updated` (state.py:794-800): a priority that *rises* to a positive
-                    value shifts the change time of every changed side by `_punt_secs[side]`
-* `punt`          — `SyncEntry.punt`                   state.py:634-636
-* `setChanged`    — assignment to `ent[side].changed`: the `changed` branch of `SyncState.updated`
-                    (state.py:787-793, changeset membership) followed by the field write
-* `opFinished`    — `SyncState.finished`               state.py:1207-1224 with `SyncEntry.is_related_to` 659-666
-* `opSetAged`     — `SideState.set_aged`               state.py:161-163
-* `opUpdate`, `opAttach`, `setPath`, `setOid` — the slice of `SyncState.update`/`update_entry`/
-                    `_change_path`/`_change_oid` (state.py:1119-1172, 978-1026, 812-846, 879-916) that the
-                    correspondence harness uses to *build* tables of pending entries: `prior_oid=None`,
-                    `exists=True`, FILE entries (so `_update_kids` is a no-op), oids never removed or moved
-                    between entries.  Everything outside that slice sets the flag `unmodelled`.
+Entry level (pure functions on one `Entry`, returning the entry and the list of changeset actions
+`true = add(ent)`, `false = discard(ent)` issued by the attribute hooks, in order):
+* `setChangedA`   — assignment `ent[side].changed = val`: the `changed` branch of `SyncState.updated`
+                    (state.py:794-800: changeset membership; an id-less other side loses its stale flag
+                    by a direct `_changed = 0` write) followed by the field write
+* `setPriorityA`  — `SyncEntry.__setattr__` (state.py:355-362) + the `priority` branch of `updated`
+                    (state.py:801-807): a priority that *rises* to a positive value shifts the change time of
+                    every changed side by `_punt_secs[side]` (each shift is a hooked `changed` write)
+* `puntE`         — `SyncEntry.punt`                   state.py:634-636
+* `markA`         — `SyncState.mark_changed`           state.py:1036-1046
+* `setOidA`, `setPathA`, `updateA` — the slice of `_change_oid` (886-923), `_change_path` (819-853),
+                    `update`/`update_entry` (1132-1185, 985-1034) used to build tables: `prior_oid=None`, `exists=True`,
+                    FILE entries (`_update_kids` is a no-op), ids never removed or moved between entries
+* `getLatestA`, `fillSideA`, `fillEntryA` — `SyncEntry.get_latest(sides=[side])` (638-643) with
+                    `unconditionally_get_latest` / `unconditionally_get_no_info` (1367-1426) for an id-style provider;
+                    the provider's answer `info_oid(oid)` is a parameter (`none` = no such object, `some (path, prio)` =
+                    the object's path and `prioritize(side, path)`; same hash and type as recorded)
+State level:
+* `St.withE`      — apply an entry-level function to the entry with a given id and replay its changeset actions
+* `fillIn`, `changeFull` — the "fill in path if needed" loop at the head of `SyncState.change` (1197-1200), then
+* `change`        — the selection itself               state.py:1187-1218 (`shuffle = False`)
+* `opFinished`    — `SyncState.finished`               state.py:1220-1237 with `SyncEntry.is_related_to` 659-666
+* `Op`, `applyOp`, `runOps` — the calls above as a datatype, for statements about every reachable state
 
 Times and priorities are `Rat` (the implementation computes in binary floating point; the tie
 compares with a tolerance and that is in the trusted base).  A `changed` field is `Option Rat`:
@@ -24,8 +32,8 @@ The changeset is a Python `set` of entries; the harness injects an insertion-ord
 `cloudsync.sync.state`, and the model keeps the same order as a list of entry ids (`pending`).
 `sorted` is stable, so ties in the sort key are resolved by that order.
 Paths are opaque strings; `dirname` is a parameter (`dn`).
-Not modelled: `shuffle=True` (random sort key); the "fill in missing paths" loop at the head of
-`change` (state.py:1184-1187: a no-op whenever every changed side already has a path).
+Not modelled: `shuffle=True` (random sort key); removal of an id (`ent[side].oid = None`); DIRECTORY
+entries whose path changes; a provider answer whose hash/type differs from the recorded one.
 -/
 namespace CS.Sched
 
@@ -44,11 +52,24 @@ def truthyS : Option String → Bool
   | some s => s != ""
   | none => false
 
+/-- `Exists` as far as the fill-in loop cares: `trashed` stands for TRASHED or MISSING -/
+inductive Ex where
+  | unknown | exists | trashed | likelyTrashed
+  deriving Repr, DecidableEq
+
+/-- `exists in (EXISTS, UNKNOWN)` -/
+def Ex.fillable : Ex → Bool
+  | .unknown => true
+  | .exists => true
+  | _ => false
+
 structure Side where
-  changed  : Option Rat := none
-  oid      : Option String := none
-  path     : Option String := none
-  syncPath : Option String := none
+  changed    : Option Rat := none
+  oid        : Option String := none
+  path       : Option String := none
+  syncPath   : Option String := none
+  ex         : Ex := .unknown             -- `exists`
+  lastGotten : Rat := 0                   -- `_last_gotten`
   deriving Repr, DecidableEq
 
 structure Entry where
@@ -89,27 +110,48 @@ def sortKey : List Entry → List Entry
 /-- `e[side].changed and (e[side].changed <= earlier_than)` -/
 def sideAged (c : Option Rat) (earlier : Rat) : Bool := truthy c && orZero c ≤ earlier
 
-/-- the test in the loop of `change` (state.py:1198-1200) -/
+/-- the test in the loop of `change` (state.py:1211-1213) -/
 def eligible (e : Entry) (now age : Rat) : Bool :=
   sideAged e.l.changed (now - age) || sideAged e.r.changed (now - age) || e.priority < 0
 
-/-- state.py:1174-1205 with `shuffle = False`; `P` is the changeset in iteration order -/
+/-- state.py:1187-1218 with `shuffle = False`; `P` is the changeset in iteration order -/
 def change (P : List Entry) (now age : Rat) : Option Entry :=
   if P.isEmpty then none
   else (sortKey P).find? (fun e => eligible e now age)
 
-/-! ## priority writes (punting) at the level of one entry -/
+/-! ## attribute writes at the level of one entry -/
 
-/-- `ent[side].changed += d` guarded by `if ent[side].changed:` -/
-def bump (s : Side) (d : Rat) : Side :=
-  if truthy s.changed then { s with changed := some (orZero s.changed + d) } else s
+/-- changeset actions issued by the hooks, in order: `true` = `add(ent)`, `false` = `discard(ent)` -/
+abbrev Acts := List Bool
+
+/-- the test of the `changed` branch (state.py:795): reads this side's *new* value and the other
+    side's current one -/
+def hookKeep (e : Entry) (s : Bool) (val : Option Rat) : Bool :=
+  (truthy val && truthyS (e.side s).oid) || (truthy (e.side (!s)).changed && truthyS (e.side (!s)).oid)
+
+/-- `ent[s].changed = val` (state.py:794-800, then `SideState.__setattr__` writes the field) -/
+def setChangedA (e : Entry) (s : Bool) (val : Option Rat) : Entry × Acts :=
+  let keep := hookKeep e s val
+  let ot := e.side (!s)
+  -- "otherwise there is a change that is not in the changeset": direct write, no hook
+  let e1 := if !keep && (truthy ot.changed && !truthyS ot.oid) then e.setSide (!s) { ot with changed := some 0 } else e
+  (e1.setSide s { e1.side s with changed := val }, [keep])
+
+/-- `if ent[s].changed: ent[s].changed += punt_secs[s]` -/
+def bumpA (p : Rat × Rat) (x : Entry × Acts) (s : Bool) : Entry × Acts :=
+  if truthy (x.1.side s).changed then
+    let y := setChangedA x.1 s (some (orZero (x.1.side s).changed + (if s then p.2 else p.1)))
+    (y.1, x.2 ++ y.2)
+  else x
 
 /-- `ent.priority = v`: no-op when equal (`__setattr__` guard), shift when rising to a positive value -/
-def setPriorityE (punt : Rat × Rat) (e : Entry) (v : Rat) : Entry :=
-  if e.priority == v then e
+def setPriorityA (p : Rat × Rat) (e : Entry) (v : Rat) : Entry × Acts :=
+  if e.priority == v then (e, [])
   else
-    let e1 := if v > e.priority && v > 0 then { e with l := bump e.l punt.1, r := bump e.r punt.2 } else e
-    { e1 with priority := v }
+    let x := if v > e.priority && v > 0 then bumpA p (bumpA p (e, []) false) true else (e, [])
+    ({ x.1 with priority := v }, x.2)
+
+def setPriorityE (p : Rat × Rat) (e : Entry) (v : Rat) : Entry := (setPriorityA p e v).1
 
 /-- `SyncEntry.punt` -/
 def puntE (punt : Rat × Rat) (e : Entry) : Entry := setPriorityE punt e (e.priority + 1)
@@ -117,6 +159,76 @@ def puntE (punt : Rat × Rat) (e : Entry) : Entry := setPriorityE punt e (e.prio
 def puntK (punt : Rat × Rat) : Nat → Entry → Entry
   | 0, e => e
   | k+1, e => puntK punt k (puntE punt e)
+
+/-- the timestamp `mark_changed` issues when the clock reads `now` -/
+def stamp (last now : Rat) : Rat := if now ≤ last then last + 1/1000 else now
+
+/-- state.py:1036-1046 (`last` = `_last_changed_time` before the call) -/
+def markA (last now : Rat) (e : Entry) (s : Bool) : Entry × Acts :=
+  let x := setChangedA e s (some now)                          -- ent[side].changed = time.time()
+  if now ≤ last then
+    let y := setChangedA x.1 s (some (last + 1/1000))          -- ent[side].changed = last + 0.001
+    (y.1, x.2 ++ y.2)
+  else x
+
+/-- `ent[s].oid = oid` (not `None`) for an oid no other entry holds: "ent with oid goes in changeset"
+    when either side is changed (state.py:915-919) -/
+def setOidA (e : Entry) (s : Bool) (oid : String) : Entry × Acts :=
+  (e.setSide s { e.side s with oid := some oid },
+   if truthy (e.side s).changed || truthy (e.side (!s)).changed then [true] else [])
+
+/-- `ent[s].path = path` (state.py:819-853): nothing when unchanged; `prioritize` is consulted only
+    for a non-empty path and its answer written only when different -/
+def setPathA (p : Rat × Rat) (e : Entry) (s : Bool) (path : String) (prio : Rat) : Entry × Acts :=
+  if (e.side s).path == some path then (e, [])
+  else
+    let e1 := e.setSide s { e.side s with path := some path }
+    if path == "" then (e1, []) else setPriorityA p e1 prio
+
+def seqA (x : Entry × Acts) (f : Entry → Entry × Acts) : Entry × Acts :=
+  let y := f x.1
+  (y.1, x.2 ++ y.2)
+
+/-- `update_entry(ent, side, oid, path=path, file_hash=h, exists=True, changed=time.time(), otype=FILE)`;
+    `prio` = `prioritize(side, path)`, `now` the clock reading -/
+def updateA (p : Rat × Rat) (last now : Rat) (e : Entry) (s : Bool) (oid : String) (path : Option String)
+    (prio : Rat) : Entry × Acts :=
+  let x1 := setOidA e s oid
+  let x2 := match path with
+    | some pth => seqA x1 (fun e => setPathA p e s pth prio)
+    | none => x1
+  -- a tombstone survives an "exists" event as LIKELY_TRASHED (state.py:1016-1024)
+  let x3 : Entry × Acts :=
+    (x2.1.setSide s { x2.1.side s with
+        ex := if (x2.1.side s).ex == .trashed || (x2.1.side s).ex == .likelyTrashed then .likelyTrashed else .exists }, x2.2)
+  if now != 0 then seqA x3 (fun e => markA last now e s) else x3     -- `if changed:` with changed = time.time()
+
+/-- `e.get_latest(sides=[s])`; `ans` is what `providers[s].info_oid(oid)` returns -/
+def getLatestA (p : Rat × Rat) (now : Rat) (ans : Option (String × Rat)) (e : Entry) (s : Bool) : Entry × Acts :=
+  let sd := e.side s
+  let mc := orZero sd.changed                                       -- max([self[side].changed or 0])
+  if mc > sd.lastGotten then
+    let x : Entry × Acts :=
+      if sd.oid == none then
+        (e.setSide s { sd with ex := if sd.ex == .trashed then .trashed else .unknown }, [])
+      else
+        match ans with
+        | none => (e.setSide s { sd with ex := .trashed }, [])     -- unconditionally_get_no_info, id-style provider
+        | some (path, prio) =>
+          let e1 := e.setSide s { sd with ex := .exists }
+          if (e1.side s).path == some path then (e1, [])
+          else
+            let y := setPathA p e1 s path prio
+            if truthy (y.1.side s).changed then y else seqA y (fun e => setChangedA e s (some now))
+    (x.1.setSide s { x.1.side s with lastGotten := mc }, x.2)
+  else (e, [])
+
+/-- body of the fill-in loop for one side (state.py:1198-1200) -/
+def fillSideA (p : Rat × Rat) (now : Rat) (ans : Option (String × Rat)) (e : Entry) (s : Bool) : Entry × Acts :=
+  if !truthyS (e.side s).path && (e.side s).ex.fillable then getLatestA p now ans e s else (e, [])
+
+def fillEntryA (p : Rat × Rat) (now : Rat) (ansL ansR : Option (String × Rat)) (e : Entry) : Entry × Acts :=
+  seqA (fillSideA p now ansL e false) (fun e => fillSideA p now ansR e true)
 
 /-! ## `is_related_to` -/
 
@@ -140,83 +252,50 @@ structure St where
 
 def St.get? (st : St) (id : Nat) : Option Entry := st.ents.find? (·.id == id)
 
-def St.mapId (st : St) (id : Nat) (f : Entry → Entry) : St :=
-  { st with ents := st.ents.map (fun e => if e.id == id then f e else e) }
+/-- replace the entry carrying `e'.id` -/
+def St.put (st : St) (e' : Entry) : St :=
+  { st with ents := st.ents.map (fun x => if x.id == e'.id then e' else x) }
 
-def St.add (st : St) (id : Nat) : St :=
-  if st.pending.contains id then st else { st with pending := st.pending ++ [id] }
+def addId (p : List Nat) (id : Nat) : List Nat := if p.contains id then p else p ++ [id]
+def discardId (p : List Nat) (id : Nat) : List Nat := p.filter (· != id)
 
-def St.discard (st : St) (id : Nat) : St :=
-  { st with pending := st.pending.filter (· != id) }
+/-- replay changeset actions on entry `id` -/
+def St.act (st : St) (id : Nat) (acts : Acts) : St :=
+  { st with pending := acts.foldl (fun p a => if a then addId p id else discardId p id) st.pending }
+
+/-- apply an entry-level write to the entry `id` -/
+def St.withE (st : St) (id : Nat) (f : Entry → Entry × Acts) : St :=
+  match st.get? id with
+  | none => st
+  | some e => ((st.put (f e).1).act id (f e).2)
 
 /-- the changeset as entries, in iteration order -/
 def St.pendingEntries (st : St) : List Entry := st.pending.filterMap st.get?
 
 def changeSt (st : St) (now age : Rat) : Option Entry := change st.pendingEntries now age
 
-/-- `ent[s].changed = val`: hook (state.py:787-793), then the write.  The hook reads the *other*
-    side's current value and this side's *new* value. -/
 def setChanged (st : St) (id : Nat) (s : Bool) (val : Option Rat) : St :=
-  match st.get? id with
-  | none => st
-  | some e =>
-    let me := e.side s
-    let ot := e.side (!s)
-    let st1 :=
-      if (truthy val && truthyS me.oid) || (truthy ot.changed && truthyS ot.oid) then st.add id
-      else
-        let st' := st.discard id
-        -- `ent[other].changed = 0` re-enters the hook; outside the modelled slice
-        if truthy ot.changed && !truthyS ot.oid then { st' with unmodelled := true } else st'
-    st1.mapId id (fun e => e.setSide s { e.side s with changed := val })
+  st.withE id (fun e => setChangedA e s val)
 
-/-- the timestamp `mark_changed` issues when the clock reads `now` -/
-def stamp (last now : Rat) : Rat := if now ≤ last then last + 1/1000 else now
-
-/-- state.py:1028-1038 -/
 def markChanged (st : St) (s : Bool) (id : Nat) (now : Rat) : St :=
   match st.get? id with
   | none => st
-  | some _ =>
-    let st1 := setChanged st id s (some now)                        -- ent[side].changed = time.time()
-    let st2 := if now ≤ st.last then setChanged st1 id s (some (st.last + 1/1000)) else st1
-    { st2 with last := stamp st.last now }                           -- _last_changed_time = ent[side].changed
+  | some _ => { st.withE id (fun e => markA st.last now e s) with last := stamp st.last now }
 
-/-- one `ent[s].changed += punt[s]` of the priority branch -/
-def bumpSt (st : St) (id : Nat) (s : Bool) : St :=
-  match st.get? id with
-  | none => st
-  | some e =>
-    if truthy (e.side s).changed then
-      setChanged st id s (some (orZero (e.side s).changed + (if s then st.punt.2 else st.punt.1)))
-    else st
+def setPriority (st : St) (id : Nat) (v : Rat) : St := st.withE id (fun e => setPriorityA st.punt e v)
 
-/-- `ent.priority = v` on the state: same entry-level effect as `setPriorityE`, and the two
-    `changed +=` writes pass through the changeset hook -/
-def setPriority (st : St) (id : Nat) (v : Rat) : St :=
-  match st.get? id with
-  | none => st
-  | some e =>
-    if e.priority == v then st
-    else
-      let st1 := if v > e.priority && v > 0 then bumpSt (bumpSt st id false) id true else st
-      st1.mapId id (fun e => { e with priority := v })
+def opPunt (st : St) (id : Nat) : St := st.withE id (fun e => setPriorityA st.punt e (e.priority + 1))
 
-def opPunt (st : St) (id : Nat) : St :=
-  match st.get? id with
-  | none => st
-  | some e => setPriority st id (e.priority + 1)
-
-/-- `SideState.set_aged`: `self.changed = 1` -/
+/-- `SideState.set_aged`: `self.changed = 1` (state.py:161-163) -/
 def opSetAged (st : St) (s : Bool) (id : Nat) : St := setChanged st id s (some 1)
 
 /-- `sync[side].changed = 0` (manager.py:480) -/
 def opClear (st : St) (s : Bool) (id : Nat) : St := setChanged st id s (some 0)
 
 def opSyncPath (st : St) (s : Bool) (id : Nat) (p : String) : St :=
-  st.mapId id (fun e => e.setSide s { e.side s with syncPath := some p })
+  st.withE id (fun e => (e.setSide s { e.side s with syncPath := some p }, []))
 
-/-- state.py:1207-1224 (the `force_sync` resets do not concern scheduling).  The loop
+/-- state.py:1220-1237 (the `force_sync` resets do not concern scheduling).  The loop
     `for e in self._changeset: if e.priority > 0 and ent.is_related_to(e): e.priority = 0` touches only `e` in each
     iteration and never the changeset (a priority that falls shifts no change time), so it is a map over the entries. -/
 def opFinished (dn : String → String) (st : St) (id : Nat) : St :=
@@ -225,54 +304,77 @@ def opFinished (dn : String → String) (st : St) (id : Nat) : St :=
   | some ent =>
     if truthy ent.r.changed || truthy ent.l.changed then st       -- "not marking finished"
     else
-      let st1 := st.discard id
+      let st1 := st.act id [false]
       { st1 with ents := st1.ents.map (fun e =>
           if st1.pending.contains e.id && (e.priority > 0 && related dn ent e) then setPriorityE st1.punt e 0 else e) }
 
-/-! ## table building (slice of update / update_entry / _change_path / _change_oid) -/
+/-! ## table building -/
 
 def lookupOid (st : St) (s : Bool) (oid : String) : Option Entry :=
   st.ents.find? (fun e => (e.side s).oid == some oid)
 
-/-- `ent[s].oid = oid` for an oid no *other* entry holds: index it; "ent with oid goes in changeset"
-    when either side is changed (state.py:908-912) -/
-def setOid (st : St) (id : Nat) (s : Bool) (oid : String) : St :=
-  match st.get? id with
-  | none => st
-  | some e =>
-    let clash := match lookupOid st s oid with
-      | some o => o.id != id
-      | none => false
-    let st0 := if clash || oid == "" then { st with unmodelled := true } else st
-    let st1 := st0.mapId id (fun e => e.setSide s { e.side s with oid := some oid })
-    if truthy (e.side s).changed || truthy (e.side (!s)).changed then st1.add id else st1
-
-/-- `ent[s].path = path` (state.py:812-846): nothing when unchanged; otherwise re-index, then
-    `new_priority = prioritize(side, path)`, written only when different -/
-def setPath (st : St) (id : Nat) (s : Bool) (path : String) (prio : Rat) : St :=
-  match st.get? id with
-  | none => st
-  | some e =>
-    if (e.side s).path == some path then st
-    else if path == "" then { st with unmodelled := true }
-    else
-      let st1 := st.mapId id (fun e => e.setSide s { e.side s with path := some path })
-      setPriority st1 id prio
-
 /-- `SyncState.update(side, FILE, oid, path=path, hash=h)` with the clock reading `now`;
     `prio` is `prioritize(side, path)`.  Returns the id of the entry used. -/
-def opUpdate (st : St) (s : Bool) (oid path : String) (prio now : Rat) : St × Nat :=
+def opUpdate (st : St) (s : Bool) (oid : String) (path : Option String) (prio now : Rat) : St × Nat :=
   let (st0, id) := match lookupOid st s oid with
     | some e => (st, e.id)
-    | none => ({ st with ents := st.ents ++ [{ id := st.ents.length }] }, st.ents.length)
-  let st1 := setOid st0 id s oid
-  let st2 := setPath st1 id s path prio
-  let st3 := if now != 0 then markChanged st2 s id now else st2     -- `if changed:` with changed = time.time()
-  (st3, id)
+    | none => ({ st with ents := st.ents ++ [({ id := st.ents.length } : Entry)] }, st.ents.length)
+  let st1 := st0.withE id (fun e => updateA st.punt st.last now e s oid path prio)
+  ({ st1 with last := if now != 0 then stamp st.last now else st.last }, id)
 
 /-- give entry `id` its other side the way the engine does after a sync:
-    `ent[s].oid = oid; ent[s].path = path` -/
+    `ent[s].oid = oid; ent[s].path = path`; an oid held by another entry is outside the slice -/
 def opAttach (st : St) (s : Bool) (id : Nat) (oid path : String) (prio : Rat) : St :=
-  setPath (setOid st id s oid) id s path prio
+  let clash := match lookupOid st s oid with
+    | some o => o.id != id
+    | none => false
+  let st0 := if clash then { st with unmodelled := true } else st
+  st0.withE id (fun e => seqA (setOidA e s oid) (fun e => setPathA st.punt e s path prio))
+
+/-! ## the fill-in loop of `change` -/
+
+/-- what the providers answer for (entry id, side) -/
+abbrev Oracle := Nat → Bool → Option (String × Rat)
+
+/-- state.py:1197-1200: for every pending entry and side without a path whose `exists` is EXISTS or
+    UNKNOWN, `get_latest(sides=[side])`.  The loop iterates over the changeset; a write that changed the
+    changeset's membership would abort the Python iteration, hence the flag. -/
+def fillIn (orc : Oracle) (now : Rat) (st : St) : St :=
+  let st' := st.pending.foldl (fun acc id =>
+    acc.withE id (fun e => fillEntryA acc.punt now (orc id false) (orc id true) e)) st
+  if st'.pending != st.pending then { st' with unmodelled := true } else st'
+
+/-- `SyncState.change(age)` in full: fill in, sort, first eligible -/
+def changeFull (orc : Oracle) (st : St) (now age : Rat) : St × Option Entry :=
+  let st' := fillIn orc now st
+  (st', changeSt st' now age)
+
+/-! ## calls as data -/
+
+inductive Op where
+  | update (s : Bool) (oid : String) (path : Option String) (prio now : Rat)
+  | attach (s : Bool) (id : Nat) (oid path : String) (prio : Rat)
+  | mark (s : Bool) (id : Nat) (now : Rat)
+  | punt (id : Nat)
+  | setprio (id : Nat) (v : Rat)
+  | clear (s : Bool) (id : Nat)
+  | setaged (s : Bool) (id : Nat)
+  | syncpath (s : Bool) (id : Nat) (p : String)
+  | finished (id : Nat)
+  | fill (orc : Oracle) (now : Rat)
+
+def applyOp (dn : String → String) (st : St) : Op → St
+  | .update s oid path prio now => (opUpdate st s oid path prio now).1
+  | .attach s id oid path prio => opAttach st s id oid path prio
+  | .mark s id now => markChanged st s id now
+  | .punt id => opPunt st id
+  | .setprio id v => setPriority st id v
+  | .clear s id => opClear st s id
+  | .setaged s id => opSetAged st s id
+  | .syncpath s id p => opSyncPath st s id p
+  | .finished id => opFinished dn st id
+  | .fill orc now => fillIn orc now st
+
+def runOps (dn : String → String) (st : St) (ops : List Op) : St := ops.foldl (applyOp dn) st
 
 end CS.Sched
